@@ -178,13 +178,33 @@ example : synd exS3 [true, false, false, false, false, true] ≠ zeros 2 := by d
 NETWORK SIDE: `factor_graph_identity` (generic) and `planar_tn_exact_value` / `planar_tn_value` / `planar_tn_value_rl` /
 `planar_tn_value_transposed` (the planar MPS decoder's network, all sizes) are PROVED in Props/C10/Network.lean.
 
-STATED, NOT PROVED:
+The networks of the other four tensor-network decoders are modelled and PROVED too (audit: an earlier version of this
+comment listed them as "not modelled"), each for all accepted sizes, all distributions, all samples, every mode:
+* PlanarRMPSDecoder — Props/C10/PlanarRmpsNetwork.lean `planarRmps_tn_exact_value`, `planarRmps_tn_value` (`_rl`,
+  `_transposed`), `planarRmps_optimized_value` (`_tn_contract_optimized` returns `cosetProb` of its four samples);
+  Props/C10/PlanarRmpsLogicals.lean `planarRmps_diag_logical_x` / `_z`, `planarRmps_coset_values` (the diagonal logicals
+  name the code's cosets: the four values are `cosetProbs4`);
+* RotatedPlanarMPSDecoder — Props/C10/RotatedPlanarNetwork.lean `rotated_planar_tn_exact_value`, `rotated_planar_tn_value`
+  (`_rl`, `_transposed`), `rotated_planar_tn_coset_values`; Props/C10/RotatedPlanarShared.lean
+  `rotated_planar_tn_coset_values_c` / `_r` / `_a`;
+* RotatedPlanarRMPSDecoder — Props/C10/RotatedPlanarRmpsNetwork.lean `rotated_planar_rmps_tn_exact_value`,
+  `rotated_planar_rmps_tn_value` (`_rl`, `_transposed`), `rotated_planar_rmps_tn_decoder_value`,
+  `rotated_planar_rmps_tn_coset_values`; Props/C10/RotatedPlanarRmpsShared.lean `rotated_planar_rmps_coset_values_c` /
+  `_r` / `_a` (shared bra);
+* Color666MPSDecoder — Props/C10/Color666Network.lean `color666_tn_exact_value`, `color666_tn_value`;
+  Props/C10/Color666Values.lean `color666_tn_variant_value`, `color666_tn_values` (shared ket);
+* PlanarMPSDecoder's shared-bra procedure — Props/C10/PlanarShared.lean `planar_tn_coset_values_c` / `_r` / `_a`;
+* agreement of independently constructed networks (standard vs rotated, by column vs by row) —
+  Props/C10/Agreement.lean `planar_rmps_modes_agree`, `planar_mps_rmps_agree`, `rotated_planar_mps_rmps_agree`;
+* `CodeSpec` discharged for every family (and the ML theorems without code hypotheses) — Props/C10/Instances.lean.
 
-* the networks of PlanarRMPSDecoder, RotatedPlanarMPSDecoder, RotatedPlanarRMPSDecoder and Color666MPSDecoder are not
-  modelled; the statement "their exact contraction equals cosetProb" is only explored (their float results are compared
-  with the exact Lean value on every run).
-* The statement "the real decoders' float / mpf results equal cosetProb" is not a theorem at all: it is explored
-  numerically on every run by harness/qv/props/c10.py (relative 1e-11), see LEVEL note there.
+STATED, NOT PROVED (exact-arithmetic side): nothing.  GENUINELY OPEN (not theorems, explored by the harness):
+
+* "the real decoders' float / mpf results equal cosetProb" is not a theorem at all: it is explored numerically on every
+  run by harness/qv/props/c10.py (relative 1e-11), see LEVEL note there; likewise truncation (`chi`, `tol`), the `stp`
+  mask, and the `except` fall-back to 0.0 (never reached by the models: the theorems show they return `ok`).
+* the final step `decode` = sample · (arg-max logical) is modelled (`Coset.argMax`, `argMax_is_max`,
+  `ml_optimal_of_argmax`) on exact values; ties "within numerical tolerance" are excluded by the property itself.
 -/
 
 end Qec.C10
